@@ -395,7 +395,8 @@ def run_case(case):
         return
     # maxmatch variants (judged by the wrapper); -1 means no limit as well
     gmax = int(np.bincount(base[0]).max()) if base[0].size else 1
-    for mm in (-1, 1, 2, int(rng.integers(1, gmax + 2)), gmax + 5):
+    # (the last three: "more than any group" spelled as numbers whose low 32 bits are small)
+    for mm in (-1, 1, 2, int(rng.integers(1, gmax + 2)), gmax + 5, 2 ** 32 + 1, 3 * 2 ** 32 + 2, 2 ** 40 + int(rng.integers(1, 9))):
         res, e = probe.attempt(h.match, ra1, dec1, ra2, dec2, rarg, maxmatch=mm)
         if e is not None:
             COL.violation("C12.truncate", "maxmatch=%d raised %s: %s" % (mm, type(e).__name__, str(e)[:140]), wit)
